@@ -1,6 +1,6 @@
 SPECIFICATION Spec
 CONSTANTS
-  Family = "resolve"
+  Fault = "none"
   Depth = "thorough"
-INVARIANTS ResolveInvs FnAgrees Terminates Emit
+INVARIANTS SeqInvs Terminates Sane Emit
 CHECK_DEADLOCK FALSE
